@@ -405,9 +405,9 @@ class CreateUniqueConstraintOp(AddConstraintOp):
         uq_constraint = cast("UniqueConstraint", constraint)
 
         kw: Dict[str, Any] = {}
-        if uq_constraint.deferrable:
+        if uq_constraint.deferrable is not None:
             kw["deferrable"] = uq_constraint.deferrable
-        if uq_constraint.initially:
+        if uq_constraint.initially is not None:
             kw["initially"] = uq_constraint.initially
         kw.update(uq_constraint.dialect_kwargs)
         return cls(
@@ -543,9 +543,9 @@ class CreateForeignKeyOp(AddConstraintOp):
             kw["onupdate"] = fk_constraint.onupdate
         if fk_constraint.ondelete:
             kw["ondelete"] = fk_constraint.ondelete
-        if fk_constraint.initially:
+        if fk_constraint.initially is not None:
             kw["initially"] = fk_constraint.initially
-        if fk_constraint.deferrable:
+        if fk_constraint.deferrable is not None:
             kw["deferrable"] = fk_constraint.deferrable
         if fk_constraint.use_alter:
             kw["use_alter"] = fk_constraint.use_alter
@@ -766,12 +766,18 @@ class CreateCheckConstraintOp(AddConstraintOp):
         constraint_table = sqla_compat._table_for_constraint(constraint)
 
         ck_constraint = cast("CheckConstraint", constraint)
+        kw: Dict[str, Any] = {}
+        if ck_constraint.deferrable is not None:
+            kw["deferrable"] = ck_constraint.deferrable
+        if ck_constraint.initially is not None:
+            kw["initially"] = ck_constraint.initially
+        kw.update(ck_constraint.dialect_kwargs)
         return cls(
             sqla_compat.constraint_name_or_none(ck_constraint.name),
             constraint_table.name,
             cast("ColumnElement[Any]", ck_constraint.sqltext),
             schema=constraint_table.schema,
-            **ck_constraint.dialect_kwargs,
+            **kw,
         )
 
     def to_constraint(
